@@ -36,17 +36,26 @@ func (m *F81Model) Distance(seq1 []uint8, seq2 []uint8, weights []float64) (floa
 	var dist float64
 
 	diff, total := countDiffs(seq1, seq2, m.selectedSites, weights, false)
+	if diff == 0 && total > 0 {
+		// No difference (also when b1 is 0, i.e. the alignment is made of a single nucleotide)
+		return 0, nil
+	}
 	diff = diff / total
+	if 1.-diff/m.b1 < 0 {
+		// Saturation: the distance is not defined, with or without gamma
+		return math.NaN(), nil
+	}
 
 	if m.gamma {
 		dist = 1. * m.b1 * m.alpha * (math.Pow(1.-diff/m.b1, -1./m.alpha) - 1.)
 	} else {
 		dist = -1. * m.b1 * math.Log(1.-diff/m.b1)
 	}
-	if dist > 0 {
-		return dist, nil
+	if dist <= 0 {
+		// Rounding errors only: an undefined distance (NaN, no comparable site) is not 0
+		return 0, nil
 	}
-	return 0, nil
+	return dist, nil
 }
 
 func (m *F81Model) InitModel(al align.Alignment, weights []float64, gamma bool, alpha float64) (err error) {
